@@ -151,6 +151,8 @@ type schedArg struct {
 	Bounds   schedBounds `json:"bounds"`
 	Budget   int         `json:"budget_s"`
 	Strict   bool        `json:"strict"` // C04: compare ledger write order exactly for the deterministic commit
+	Ops      []Op        `json:"ops,omitempty"`   // commit scenario over an explicit history instead of a corpus history
+	Batch    [][]Op      `json:"batch,omitempty"` // several explicit histories: each is run with both commits
 }
 
 func obsLedger(l *Ledger, from int, ordered bool) string {
@@ -215,9 +217,14 @@ func (failingStorable) CopyNonRefSimple() (atree.Storable, error) { return nil, 
 
 // commitScenario returns a body (run under the controller) and the baseline observation.
 func commitScenario(a schedArg) (body func() string, baseline string, err error) {
-	ops := c14Histories()[a.Hist]
-	if a.Prefix > 0 && a.Prefix < len(ops) {
-		ops = ops[:a.Prefix]
+	var ops []Op
+	if a.Ops != nil {
+		ops = a.Ops
+	} else {
+		ops = c14Histories()[a.Hist]
+		if a.Prefix > 0 && a.Prefix < len(ops) {
+			ops = ops[:a.Prefix]
+		}
 	}
 	mk := func() (*World, error) {
 		w, err := buildHistory(256, ops)
@@ -529,6 +536,45 @@ func schedTask(raw json.RawMessage) TaskResult {
 		res.Herr = err.Error()
 		return res
 	}
+	if len(a.Batch) == 0 {
+		return schedOne(a)
+	}
+	// a batch of explicit histories (states found by an explicit-state search): both commits each
+	res.Counters = map[string]int{}
+	for _, ops := range a.Batch {
+		for _, relaxed := range []bool{false, true} {
+			a2 := a
+			a2.Batch, a2.Ops, a2.Relaxed = nil, ops, relaxed
+			one := schedOne(a2)
+			if one.Herr != "" {
+				res.Herr = one.Herr
+				return res
+			}
+			res.Evals += one.Evals
+			for k, v := range one.Counters {
+				if k == "max_choice_points" || k == "distinct_outcomes" {
+					if v > res.Counters[k] {
+						res.Counters[k] = v
+					}
+					continue
+				}
+				res.Counters[k] += v
+			}
+			if len(res.Samples) < 2 {
+				res.Samples = append(res.Samples, one.Samples...)
+			}
+			res.Viols = append(res.Viols, one.Viols...)
+			res.Distinct = append(res.Distinct, one.Distinct...)
+			if len(res.Viols) > 3 {
+				return res
+			}
+		}
+	}
+	return res
+}
+
+func schedOne(a schedArg) TaskResult {
+	var res TaskResult
 	atree.VerifSetThreshold(256)
 	prepareHook = nil
 	var body func() string
@@ -560,6 +606,14 @@ func schedTask(raw json.RawMessage) TaskResult {
 		return res
 	}
 	name := fmt.Sprintf("%s hist=%d[:%d] relaxed=%v workers=%d variant=%d bounds=%+v", a.Scenario, a.Hist, a.Prefix, a.Relaxed, a.Workers, a.Variant, a.Bounds)
+	if a.Ops != nil {
+		name = fmt.Sprintf("%s history [%s] relaxed=%v workers=%d bounds=%+v", a.Scenario, OpsString(a.Ops), a.Relaxed, a.Workers, a.Bounds)
+		if strings.Contains(baseline, "|log:|") {
+			// nothing owned is pending at this state: the commit makes no ledger call
+			res.Counters = map[string]int{"trivial_histories_skipped": 1}
+			return res
+		}
+	}
 	// replay discipline: the first schedule twice, identical observations
 	x1, _ := runOnce(body, nil)
 	x2, _ := runOnce(body, nil)
